@@ -27,6 +27,7 @@ Verdict(r) ==
     \cup (IF \E i \in 1..Len(r.props) : r.props[i].set # "<absent>" /\ r.props[i].after_set # Norm(r.props[i].set)
           THEN {"property-set-get"} ELSE {})
     \cup (IF Has(r, "args_read") /\ r.args_read # <<>> THEN {"constructor-argument-not-readable"} ELSE {})
+    \cup (IF Has(r, "stale") /\ r.stale # <<>> THEN {"property-stale-after-assignment"} ELSE {})
     (* "at any depth": the same element parsed as the second of two instances in one parent answers the same *)
     \cup (IF Has(r, "context") /\ r.context # <<>> THEN {"property-differs-inside-a-document"} ELSE {})
 
